@@ -990,6 +990,16 @@ impl ConnectionPool {
             address.stats.error();
         }
 
+        // A failure on a replica the administrator has banned does not replace that ban while
+        // it lasts: the entry would run out after ban_time instead of the administrator's duration.
+        if !matches!(reason, BanReason::AdminBan(_)) {
+            if let Some((BanReason::AdminBan(duration), since)) = guard[address.shard].get(address) {
+                if now.timestamp() - since.timestamp() <= *duration {
+                    return;
+                }
+            }
+        }
+
         guard[address.shard].insert(address.clone(), (reason, now));
     }
 
